@@ -258,6 +258,12 @@ func setVariableType(res map[string]string, name, typ string) {
 
 func (f *Formatter) walkArgumentList(s ast.SelectionSet) map[string]string {
 	res := make(map[string]string)
+	// directives of the fragments themselves, f.e. ... on User @include(if: $flag) { ... }
+	for _, d := range inlineFragmentDirectives(s) {
+		for k, v := range f.walkDirectiveArgumentList(d) {
+			setVariableType(res, k, v)
+		}
+	}
 	for _, field := range common.SelectionSetToFields(s, nil) {
 		for _, a := range field.Arguments {
 			if field.Definition == nil || field.Definition.Arguments == nil {
@@ -303,6 +309,18 @@ func (f *Formatter) walkArgumentList(s ast.SelectionSet) map[string]string {
 		}
 	}
 
+	return res
+}
+
+// inlineFragmentDirectives returns directives of all inline fragments of this level
+func inlineFragmentDirectives(s ast.SelectionSet) ast.DirectiveList {
+	var res ast.DirectiveList
+	for _, sel := range s {
+		if frag, ok := sel.(*ast.InlineFragment); ok {
+			res = append(res, frag.Directives...)
+			res = append(res, inlineFragmentDirectives(frag.SelectionSet)...)
+		}
+	}
 	return res
 }
 
